@@ -395,8 +395,9 @@ PROPS.update({
                    'callback trace vs the model.',
         level_note='Trusted as C14. Scanner switching is not exercised by the alphabet scanner (single mode with a %skip list).',
         technique='Rocq proof (observational equivalence of runs with the same significant tokens) + metamorphic differential run',
-        streams=[dict(cmd='c14', quick=240, thorough=12000)],
-        rule='as C14; non-trivial = accepted text with >= 2 skipped tokens; distinct = distinct case text',
+        streams=[dict(cmd='c14', quick=240, thorough=12000), dict(cmd='c13', quick=960, thorough=20000)],
+        rule='second stream (as C13): real generated scanners with scanner states, %on transitions and state-specific %skip lists (the switching token skipped in exactly one of the two states): every token must be flagged skipped iff it is a built-in skip token or listed in the %skip list of the state it was MATCHED in; first stream: '
+             'as C14; non-trivial = accepted text with >= 2 skipped tokens; distinct = distinct case text',
         explanation='D9 repaired by a fix: commit.',
     ),
 })
